@@ -266,6 +266,10 @@ func (ctx *symmetricKeyCipher) encryptKey(cek []byte, alg KeyAlgorithm) (recipie
 func (ctx *symmetricKeyCipher) decryptKey(headers rawHeader, recipient *recipientInfo, generator keyGenerator) ([]byte, error) {
 	switch KeyAlgorithm(headers.Alg) {
 	case DIRECT:
+		// RFC 7516 5.2 step 10: with direct encryption the encrypted key must be empty.
+		if len(recipient.encryptedKey) != 0 {
+			return nil, ErrCryptoFailure
+		}
 		cek := make([]byte, len(ctx.key))
 		copy(cek, ctx.key)
 		return cek, nil
